@@ -99,3 +99,39 @@ package regular
 //@   ensures err == nil ==> (result0 != nil && fresh(result0) && result0.AgentKey == ret(ssh.NewSSHAgentKeyWithOpt, n0, 0) && result0.AgentKey != nil && len(result0.csrs) == 0)
 //@   ensures err == nil <==> ret(ssh.NewSSHAgentKeyWithOpt, n0, 1) == nil
 //@   ensures err != nil ==> result0 == nil
+
+//@ func newDefaultConf()
+//@   ensures result != nil && fresh(result) && result.PubKeyDir == "/etc/ssh/authorized_public_keys" && result.CertLabel == "regular" &&
+//@     result.CertValiditySec == 43200 && result.KeyIdentifiers == nil
+
+//@ # Generate: every field of the one signing request and of the KeyID it carries.
+//@ func (*Handler).Generate(h, param)
+//@   flag logged
+//@   requires h != nil && h.conf != nil && h.agent != nil
+//@   requires param != nil ==> param.Attrs != nil
+//@   let g0 = old(calls(generateAgentKey))
+//@   let m0 = old(calls(ssh.MarshalAuthorizedKey))
+//@   ensures err != nil ==> (result0 == nil && typeof(err) == *gensign.Error)
+//@   ensures param == nil ==> gensign.isErr(err, 1)
+//@   ensures [one-agent-key-with-one-request] err == nil ==> (param != nil && len(result0) == 1 && typeof(result0[0]) == *csrAgentKey &&
+//@     pl(result0[0]) != 0 && len(result0[0].(*csrAgentKey).csrs) == 1 && result0[0].(*csrAgentKey).csrs[0] != nil && fresh(result0[0].(*csrAgentKey).csrs[0]))
+//@   ensures [single-principal-is-the-server-side-login-name] err == nil ==> (len(result0[0].(*csrAgentKey).csrs[0].Principals) == 1 &&
+//@     result0[0].(*csrAgentKey).csrs[0].Principals[0] == param.LogName)
+//@   ensures [configured-validity] err == nil ==> result0[0].(*csrAgentKey).csrs[0].Validity == h.certValiditySec
+//@   ensures [default-extension-set] err == nil ==> (result0[0].(*csrAgentKey).csrs[0].Extensions != nil && crypki.defaultExtDom(result0[0].(*csrAgentKey).csrs[0].Extensions) &&
+//@     result0[0].(*csrAgentKey).csrs[0].Extensions["permit-pty"] == "" && result0[0].(*csrAgentKey).csrs[0].Extensions["permit-X11-forwarding"] == "" &&
+//@     result0[0].(*csrAgentKey).csrs[0].Extensions["permit-agent-forwarding"] == "" && result0[0].(*csrAgentKey).csrs[0].Extensions["permit-port-forwarding"] == "" &&
+//@     result0[0].(*csrAgentKey).csrs[0].Extensions["permit-user-rc"] == "")
+//@   ensures [ca-key-slot-configured-for-the-requested-algorithm] err == nil ==> (result0[0].(*csrAgentKey).csrs[0].KeyMeta != nil &&
+//@     (param.Attrs.CAPubKeyAlgo in dom(h.conf.KeyIdentifiers)) &&
+//@     result0[0].(*csrAgentKey).csrs[0].KeyMeta.Identifier == h.conf.KeyIdentifiers[param.Attrs.CAPubKeyAlgo])
+//@   ensures [refused-when-no-slot-is-configured] (param != nil && !(param.Attrs.CAPubKeyAlgo in dom(h.conf.KeyIdentifiers))) ==> (err != nil &&
+//@     (calls(generateAgentKey) == g0 + 1 && ret(generateAgentKey, g0, 1) == nil ==> gensign.isErr(err, 5)))
+//@   ensures [certifies-the-key-pair-generated-for-this-request] err == nil ==> (calls(generateAgentKey) == g0 + 1 && arg(generateAgentKey, g0, 0) == h &&
+//@     ret(generateAgentKey, g0, 1) == nil && pl(result0[0]) == ret(generateAgentKey, g0, 0) &&
+//@     calls(ssh.MarshalAuthorizedKey) == m0 + 1 && arg(ssh.MarshalAuthorizedKey, m0, 0) == ret(generateAgentKey, g0, 0).AgentKey.pubKey &&
+//@     result0[0].(*csrAgentKey).csrs[0].PublicKey == str(ret(ssh.MarshalAuthorizedKey, m0, 0)))
+//@   ensures [keyid-carries-server-side-identity-and-regular-attributes] err == nil ==> result0[0].(*csrAgentKey).csrs[0].KeyId ==
+//@     keyid.enc(elems(result0[0].(*csrAgentKey).csrs[0].Principals), 1, param.TransID, param.ReqUser, param.ClientIP, param.ReqHost,
+//@       false, false, false, false, 0, 1, 1)
+//@   ensures calls(generateAgentKey) <= g0 + 1
